@@ -1,6 +1,6 @@
 (* Props/C09.v - KILL QUERY spares the connection; KILL CONNECTION ends exactly the target. *)
 From Coq Require Import List Arith NArith Lia Bool.
-From MM Require Import Lib.Bytes Model.Conn Model.Resp Proofs.ConnInv Proofs.C10Proofs Proofs.KillProofs Proofs.RespProofs Gen.FactsConn.
+From MM Require Import Lib.Bytes Model.Conn Model.Resp Proofs.ConnInv Proofs.C10Proofs Proofs.KillProofs Proofs.RespProofs Gen.FactsConn Gen.FactsRoute Gen.FactsControl.
 Import ListNotations.
 Open Scope N_scope.
 
@@ -10,7 +10,9 @@ Definition BATCH : N := utils_batch_size.
 Theorem c09_source_shape :
   translated_conn = true /\ connection_connection_kill_ok = true /\ connection_connection_command_phase_ok = true /\
   connection_connection_inner_start_ok = true /\ connection_connection_start_ok = true /\
-  connection_connection_handle_change_user_ok = true /\ err_session_was_killed = E_SESSION_WAS_KILLED.
+  connection_connection_handle_change_user_ok = true /\ err_session_was_killed = E_SESSION_WAS_KILLED /\
+  (* the KILL statement reaches Connection.kill from the issuing connection's own task (the self-kill guard relies on it) *)
+  session_session_kill_middleware_ok = true /\ control_add_remove_kill_ok = true.
 Proof. repeat split; reflexivity. Qed.
 
 (* in EVERY state: a KILL QUERY that finds no command being handled (idle, connection phase, shutdown,
